@@ -22,7 +22,7 @@ LEVEL = {
              "one-shot, exhausted step returns 0 and writes nothing, generate_all = remaining suffix. The model is tied to src/speech.rs by running "
              "the same state machine (vocoder abstracted as the implementation's own one-shot transcript) against real generators on exhaustive short "
              "and random long histories, bitwise. The defect found (generate_all after a step panicked) is repaired in /repo (fix: ed3d9ae) and kept as "
-             "a theorem about the pinned indexing.",
+             "a theorem about the pinned indexing. Lifted to the whole library (C02Lib library_history_refines): the same refinement for the generator Engine::generator builds from the voice files, against the waveform Synth.synthesize returns.",
         note="Trusted: Lean kernel; axioms ⊆ {propext, Classical.choice, Quot.sound}; hand-written model tied by differential testing; the real "
              "vocoder is abstracted by its transcript (its determinism and frame length are observed, not proved).",
     ),
@@ -30,7 +30,7 @@ LEVEL = {
         text="All clauses are theorems about the model of DurationEstimator::create over any ordered field with floor: create(1) = max(1,round(mean)); "
              "create is total (the unwrap on an empty min_by is unreachable by pigeonhole, the greedy loop ends within |target-sum| iterations); one "
              "duration >= 1 per state; total = max(round(F1/s), n); antitone in s. Tied to src/duration.rs by exact comparison of whole duration vectors "
-             "(which also pins the first-minimum greedy choice) on generated and real duration models. f64 rounding itself is test-level.",
+             "(which also pins the first-minimum greedy choice) on generated and real duration models. f64 rounding itself is test-level. Lifted to the whole library (C08Lib library_speed_law).",
         note="Trusted: Lean kernel; axioms ⊆ {propext, Classical.choice, Quot.sound}; roundMax1 x = max 1 ⌊x+1/2⌋₊ as the exact-arithmetic meaning of "
              "x.round().max(1.0) as usize; total_cmp on NaN costs is outside the model (variances non-zero).",
     ),
@@ -39,7 +39,7 @@ LEVEL = {
              "(each >= 1 frame) and nothing panics; for every label with known end the frames through it are c + round(e-c) = round(e) unless the group "
              "cannot fit, in which case each state gets exactly 1; unknown-end labels share one estimate call (by construction). The defect found — "
              "trailing labels without an end vanished — is repaired in /repo (fix: 7c58cfc) and kept as a theorem about the pinned behaviour. Tied to "
-             "src/label.rs and src/duration.rs by exhaustive small and random annotations, exact comparison.",
+             "src/label.rs and src/duration.rs by exhaustive small and random annotations, exact comparison. Lifted to the whole library (library_alignment_law, library_alignment_round_end).",
         note="Trusted: as C08; jlabel parsing is outside (labels are opaque); str::parse::<f64> exercised only through integer time stamps.",
     ),
     "C19": dict(
@@ -47,7 +47,7 @@ LEVEL = {
              "metadata equal (EmptyVoice / MetadataError otherwise); a weight update is accepted iff |sum-1| <= eps and count = nvoices, sum error first; an "
              "accepted update stores exactly the weights and touches nothing else; a rejected update is a no-op inside any history (so previous weights stay in "
              "force); every vector keeps nvoices entries. Tied to the code by metadata-mutated voice tuples and update histories with getters compared bitwise "
-             "and a waveform comparison after each history.",
+             "and a waveform comparison after each history. Lifted to the whole library (library_rejected_update_is_noop).",
         note="Trusted: Lean kernel; axioms ⊆ {propext, Classical.choice, Quot.sound}; model tied by differential testing; approx::abs_diff_ne modelled as |a-b| <= eps with eps = f64::EPSILON passed in.",
     ),
     "C10": dict(
@@ -66,7 +66,7 @@ LEVEL = {
              "return the solution of the dense normal equations; that solution maximises the Gaussian log-likelihood over ALL sequences. Capstone "
              "create_total_and_ml: on every well-formed stream without GV the model of MlpgAdjust::create returns a trajectory whose every column, restricted "
              "to the voiced frames, is the likelihood maximiser. What remains test-level is f64 rounding only: the oracle rebuilds the normal-equation residual "
-             "from the definition on the implementation's output (<= 1e-8 of scale) and the model is bit-identical to the implementation on all executed cases.",
+             "from the definition on the implementation's output (<= 1e-8 of scale) and the model is bit-identical to the implementation on all executed cases. Lifted to the whole library (library_trajectory_is_ml).",
         note="Trusted: Lean kernel; axioms ⊆ {propext, Classical.choice, Quot.sound}; model tied by differential testing (1e-9 relative, bit-identical in "
              "practice); exact-arithmetic semantics (floating-point rounding is measured, not proved).",
     ),
@@ -117,7 +117,7 @@ LEVEL = {
         text="Theorems: a frame rendered at gain g is the gain-1 frame scaled sample by sample with identical vocoder state, for either filter family; by induction "
              "the whole rendering scales by g, and so does Engine::synthesize of the pipeline model (synthesize_gain, synthesize_volume_db: nothing before the "
              "vocoder reads the volume); get_volume inverts set_volume given ln∘exp = id; dB add; set_volume touches no other setting. Tied to the code at "
-             "stage level (both families) and through Engine::synthesize at v dB vs 0 dB (1e-12 relative), with getter read-back.",
+             "stage level (both families) and through Engine::synthesize at v dB vs 0 dB (1e-12 relative), with getter read-back. Lifted to the whole library (library_volume_is_gain): for every voice set, weights, history and labels.",
         note="Trusted: Lean kernel; axioms ⊆ {propext, Classical.choice, Quot.sound}; exp/ln laws as hypotheses; f64 rounding of exp(v*DB) test-level.",
     ),
     "C01": dict(
@@ -138,7 +138,7 @@ LEVEL = {
         text="Theorems: a frame is voiced iff its state's voicing weight exceeds the stream's threshold; raising the threshold only removes voiced frames; unvoiced "
              "frames carry NODATA in every dimension and NODATA is rendered as period 0 (noise); in the pipeline model stream i reads only msd_threshold[i] and "
              "gv_weight[i]. That the real Engine::generator wires the indices the same way is decided on every run through the hook: bitwise equality of a stream's "
-             "trajectory under changes to the other streams' settings, and the voiced set against the dumped voicing weights at two thresholds.",
+             "trajectory under changes to the other streams' settings, and the voiced set against the dumped voicing weights at two thresholds. Lifted to the whole library (library_threshold_/gv_weight_touches_own_stream_only).",
         note="Trusted: Lean kernel; axioms ⊆ {propext, Classical.choice, Quot.sound}; hook verif_parameters (read-only).",
     ),
     "C12": dict(
@@ -147,7 +147,7 @@ LEVEL = {
              "frames; the per-state GV switch Models::gv produces is on exactly for labels matching none of the voice's GV-off patterns, wherever the label stands "
              "(switch_is_outside_gv_off; the check recomputes eligibility from the voice file's patterns and the label text, not from the library's switch). The 20 % and monotonicity clauses are empirical statements about five steps of a "
              "Newton-like iteration and are decided on every run on the implementation (bundled + perturbed voices, >= 100 eligible frames), while the iteration's "
-             "Lean model is tied bit-for-bit at stage level.",
+             "Lean model is tied bit-for-bit at stage level. Lifted to the whole library (library_no_gv_ignores_weight, library_gv_switch).",
         note="Trusted: as C11; no convergence analysis of the GV iteration.",
     ),
     "C15": dict(
@@ -157,14 +157,14 @@ LEVEL = {
              "their adaptive step size (trajectory_shift_with_gv: the objective changes by an iterate-independent constant, so the step decisions agree). "
              "Pipeline level (pipeline_transposes_only_f0): for everything Engine::generator hands to the vocoder the durations, spectrum and low-pass "
              "trajectories are unchanged and log-F0 moves by h*ln2/12 on voiced frames. Capstone halftone_moves_the_trajectory: MlpgAdjust::create after apply_additional_half_tone(h) equals create plus h*ln2/12 on every voiced frame "
-             "(NODATA and frame count unchanged) while no state mean is clamped. That log-F0 of the real engine moves by exactly h*ln2/12 is additionally decided on every run through the hook (two runs per case, 1e-6), as is the wiring in Engine::generator.",
+             "(NODATA and frame count unchanged) while no state mean is clamped. That log-F0 of the real engine moves by exactly h*ln2/12 is additionally decided on every run through the hook (two runs per case, 1e-6), as is the wiring in Engine::generator. Lifted to the whole library (library_half_tone_nothing_else).",
         note="Trusted: as C11; shift-equivariance of MLPG and of the GV iteration proved over an ordered field; the f64 implementation is compared at 1e-6.",
     ),
     "C17": dict(
         text="Theorems over the line-grammar model: splitn yields 1..3 pieces so the expect cannot fire; loading is a total function into ok|error (no panic outcome "
              "exists in the model); blank lines are ignored anywhere; the error cases and their order; strings without time stamps load exactly as parsed labels with "
              "unknown times; durations ignore time stamps unless alignment is on. Tied to src/label.rs by 16 corruption kinds (outcome class vs model, never a panic, "
-             "Engine::generator agreeing with Labels::load_from_strings) and by bitwise waveform equality across the four input forms.",
+             "Engine::generator agreeing with Labels::load_from_strings) and by bitwise waveform equality across the four input forms. Lifted to the whole library (library_blank_lines_ignored).",
         note="Trusted: Lean kernel; axioms ⊆ {propext, Classical.choice, Quot.sound}; jlabel and std float parsing are parameters whose verdicts are supplied per case.",
     ),
     "C03": dict(
